@@ -561,6 +561,44 @@ func cliCase(t *Table, cs CaseSpec, rng *rand.Rand) (events []interface{}) {
 			closeFn()
 		}
 	}
+	// the delimiter kept in the branch configuration: the file of branch alt is declared with its delimiter
+	// (--set-file), then re-written comma separated and declared again with an explicit comma, and then committed
+	// from the configuration alone - the same rows, so no new commit (the stored delimiter must be the comma's)
+	if ev.Unique && len(t.Rows) > 0 {
+		headAlt := func() string {
+			db, rs, closeFn, err := r.Open()
+			if err != nil {
+				return ""
+			}
+			defer closeFn()
+			_ = db
+			sum, err := ref.GetHead(rs, "alt")
+			if err != nil {
+				return ""
+			}
+			return string(sum)
+		}
+		d := []rune{';', '|', '\t'}[rng.Intn(3)]
+		fp3, _ := r.WriteFile("data.alt2", tbl.CSV(all, d))
+		pkArgs := []string{}
+		if len(t.PK) > 0 {
+			pkArgs = []string{"-p", strings.Join(t.PK, ","), "--set-primary-key"}
+		}
+		if out, err := r.Run(nil, append([]string{"commit", "alt", fp3, "declared", "-n", "1", "--delimiter", string(d), "--set-file"}, pkArgs...)...); err != nil {
+			return fail("commit-set-file-"+delimName(d), err, out)
+		}
+		r.WriteFile("data.alt2", tbl.CSV(all, 0))
+		if out, err := r.Run(nil, append([]string{"commit", "alt", fp3, "declared again", "-n", "1", "--delimiter", ",", "--set-file"}, pkArgs...)...); err != nil {
+			return fail("commit-set-file-comma", err, out)
+		}
+		h2 := headAlt()
+		out, err := r.Run(nil, "commit", "alt", "from the configuration", "-n", "1")
+		es := ""
+		if err != nil {
+			es = err.Error() + " " + out
+		}
+		events = append(events, map[string]interface{}{"op": "recommit", "step": "config-delimiter", "samecontent": true, "newcommit": headAlt() != h2, "err": es})
+	}
 	// same content, other row order, other memory limit / workers
 	rows := append([][]string{}, t.Rows...)
 	rng.Shuffle(len(rows), func(i, j int) { rows[i], rows[j] = rows[j], rows[i] })
